@@ -80,18 +80,98 @@ Proof.
   assert (Hm0 : 0 < m) by (apply sqrt_lt_R0; lra).
   assert (Hnz : (negb (Reqb a 0) || negb (Reqb b 0)) = true).
   { rcases; cbn; try reflexivity. subst. now elim Hz. }
-  rewrite Hnz. rcases.
+  rewrite Hnz. clear Hnz.
+  assert (Hwz : w * w <> 0) by nra.
+  assert (Hsq : forall c, b / (2 * c) * (b / (2 * c)) = b * b / (4 * (c * c)) \/ c = 0).
+  { intros c. destruct (Req_dec c 0); [now right | left; field; lra]. }
+  destruct (Rleb_spec 0 a); [|destruct (Rltb_spec b 0)].
   - (* re >= 0 *)
-    rewrite Rabs_pos_eq in Hww by lra. unfold Cmult; cbn [fst snd]. split; [|left; exact Hw].
-    apply pair_eq; field_simplify_eq; try lra; nra.
+    rewrite Rabs_pos_eq in Hww by lra.
+    assert (Hb : b * b = 4 * (w * w) * (w * w) - 4 * (w * w) * a).
+    { assert (m = 2 * (w * w) - a) as Em by lra. rewrite Em in Hm. nra. }
+    unfold Cmult; cbn [fst snd]. split; [|left; exact Hw].
+    apply pair_eq.
+    + destruct (Hsq w) as [->|]; [|exfalso; lra]. rewrite Hb. field. lra.
+    + field. lra.
   - (* re < 0, im < 0 *)
-    rewrite Rabs_left in Hww by lra. unfold Cmult; cbn [fst snd]. split.
-    + apply pair_eq; field_simplify_eq; try lra; nra.
+    rewrite Rabs_left in Hww by lra.
+    assert (Hb : b * b = 4 * (w * w) * (w * w) + 4 * (w * w) * a).
+    { assert (m = 2 * (w * w) + a) as Em by lra. rewrite Em in Hm. nra. }
+    unfold Cmult; cbn [fst snd]. split.
+    + apply pair_eq.
+      * destruct (Hsq (- w)) as [->|]; [|exfalso; lra]. rewrite Hb. field. lra.
+      * field. lra.
     + left. replace (b / (2 * - w)) with ((- b) / (2 * w)) by (field; lra). apply Rdiv_lt_0_compat; lra.
   - (* re < 0, im >= 0 *)
-    rewrite Rabs_left in Hww by lra. unfold Cmult; cbn [fst snd]. split.
-    + apply pair_eq; field_simplify_eq; try lra; nra.
-    + destruct (Req_dec b 0) as [->|Hb].
+    rewrite Rabs_left in Hww by lra.
+    assert (Hb : b * b = 4 * (w * w) * (w * w) + 4 * (w * w) * a).
+    { assert (m = 2 * (w * w) + a) as Em by lra. rewrite Em in Hm. nra. }
+    unfold Cmult; cbn [fst snd]. split.
+    + apply pair_eq.
+      * destruct (Hsq w) as [->|]; [|exfalso; lra]. rewrite Hb. field. lra.
+      * field. lra.
+    + destruct (Req_dec b 0) as [->|Hb0].
       * right. split; [field; lra | lra].
       * left. apply Rdiv_lt_0_compat; lra.
 Qed.
+
+(* the body as found returns, in the open third quadrant, the OTHER root (negative real part): not the principal value *)
+Lemma sqrt_fb_unfixed_third_quadrant (z : C) : fst z < 0 -> snd z < 0 -> fst (sqrt_fb_unfixed RO RE z) < 0.
+Proof.
+  intros Ha Hb. assert (Hz : z <> (0, 0)) by (intros ->; cbn in Ha; lra).
+  pose proof (sqrt_w_spec z Hz) as [Hw _]. destruct z as [a b]. cbn [fst snd] in *.
+  unfold sqrt_fb_unfixed; cx. set (w := sqrt_w RO RE (a, b)) in *.
+  destruct (Reqb_spec a 0); [lra|]. cbn [negb orb].
+  destruct (Rleb_spec 0 a); [lra|]. cbn [fst].
+  replace (b / (2 * w)) with (- ((- b) / (2 * w))) by (field; lra).
+  apply Ropp_lt_gt_0_contravar, Rdiv_lt_0_compat; lra.
+Qed.
+
+Lemma sqrt_fb_unfixed_refuted : exists z : C, ~ principal_root (sqrt_fb_unfixed RO RE z) z.
+Proof.
+  exists (-3, -4). intros [_ [H | [H _]]];
+    pose proof (sqrt_fb_unfixed_third_quadrant (-3, -4)) as Hn; cbn [fst snd] in Hn; lra.
+Qed.
+
+(* a_complex_sqrt_real: the principal root of (x, 0) *)
+Lemma sqrt_real_principal (x : R) : principal_root (sqrt_real RO x) (x, 0).
+Proof.
+  unfold principal_root, sqrt_real; cx. destruct (Rleb_spec 0 x).
+  - unfold Cmult; cbn [fst snd]. split.
+    + apply pair_eq; [rewrite Rmult_0_l, Rminus_0_r; apply sqrt_sqrt; lra | ring].
+    + destruct (Req_dec x 0) as [->|]; [right; rewrite sqrt_0; lra | left; apply sqrt_lt_R0; lra].
+  - unfold Cmult; cbn [fst snd]. split.
+    + apply pair_eq; [rewrite Rmult_0_l, Rminus_0_l, sqrt_sqrt by lra; ring | ring].
+    + right. split; [reflexivity | apply sqrt_pos].
+Qed.
+
+Lemma sumsq0 (a b : R) : a * a + b * b = 0 -> a = 0 /\ b = 0.
+Proof.
+  intros H. split.
+  - apply Rsqr_0_uniq. unfold Rsqr. pose proof (Rle_0_sqr a). pose proof (Rle_0_sqr b). unfold Rsqr in *. lra.
+  - apply Rsqr_0_uniq. unfold Rsqr. pose proof (Rle_0_sqr a). pose proof (Rle_0_sqr b). unfold Rsqr in *. lra.
+Qed.
+
+(* the principal root is unique *)
+Lemma principal_root_unique (w w' z : C) : principal_root w z -> principal_root w' z -> w = w'.
+Proof.
+  intros [H1 H2] [G1 G2]. destruct w as [p q], w' as [p' q'], z as [a b]. unfold Cmult in *; cbn [fst snd] in *.
+  assert (E1 := f_equal fst H1). assert (E2 := f_equal snd H1). assert (F1 := f_equal fst G1). assert (F2 := f_equal snd G1).
+  cbn [fst snd] in *.
+  assert (P : ((p - p') * (p - p') + (q - q') * (q - q')) * ((p + p') * (p + p') + (q + q') * (q + q')) = 0).
+  { replace (((p - p') * (p - p') + (q - q') * (q - q')) * ((p + p') * (p + p') + (q + q') * (q + q')))
+      with (((p * p - q * q) - (p' * p' - q' * q')) * ((p * p - q * q) - (p' * p' - q' * q'))
+            + ((p * q + q * p) - (p' * q' + q' * p')) * ((p * q + q * p) - (p' * q' + q' * p'))) by ring.
+    rewrite E1, E2, F1, F2. ring. }
+  apply Rmult_integral in P. destruct P as [P | P].
+  - apply sumsq0 in P as [? ?]. apply pair_eq; lra.
+  - apply sumsq0 in P as [Pp Pq].
+    assert (p = 0) by (destruct H2 as [?|[? ?]], G2 as [?|[? ?]]; lra).
+    assert (p' = 0) by lra. subst p p'.
+    assert (q = 0) by (destruct H2 as [?|[? ?]], G2 as [?|[? ?]]; lra).
+    apply pair_eq; lra.
+Qed.
+
+(* the real variant agrees with the complex fallback on the real axis *)
+Lemma sqrt_fb_real_axis (x : R) : sqrt_fb RO RE (x, 0) = sqrt_real RO x.
+Proof. apply principal_root_unique with (x, 0); [apply sqrt_fb_principal | apply sqrt_real_principal]. Qed.
